@@ -179,7 +179,20 @@ def run_case(ctx, nthreads, max_events):
             if oidx >= gidx:
                 fails.append(("early", "context %d completed at the event that opened it" % cid))
             has_capture = any(type(cb).__name__ == "DeferredSnapshotActionCallback" for cb in c._CallbackContext__callbacks)
-            if okey != key and kind in ("return", "exception") and has_capture:
+            opener = frames[t][okey]
+            same_name = (opener.f_code.co_filename, opener.f_code.co_name) == (file, func)
+            # did the completing invocation have a context of its own PENDING when this event arrived?
+            # ... of the same kind (an invocation holds at most one context opened by its call and one opened by a line)
+            inner_has_own = any(ctx_ids[id(b)][2] == key and b.event == c.event for b in before)
+            if okey != key and kind in ("return", "exception") and has_capture and not same_name:
+                fails.append(("completed-by-foreign-invocation",
+                              "context %d opened by invocation %d of %s() was completed by the %s event of %s(), another function" % (
+                                  cid, okey, opener.f_code.co_name, kind, func)))
+            elif okey != key and kind in ("return", "exception") and has_capture and inner_has_own:
+                fails.append(("completed-with-inner-own-context",
+                              "context %d opened by invocation %d of %s() was completed by the %s event of the nested invocation %d, "
+                              "which had a pending context of its own (both were completed at one event)" % (cid, okey, func, kind, key)))
+            elif okey != key and kind in ("return", "exception") and has_capture:
                 fails.append(("completed-by-inner-invocation",
                               "context %d opened by invocation %d of %s() was completed by the %s event of the nested "
                               "invocation %d of the same name" % (cid, okey, func, kind, key)))
